@@ -325,6 +325,42 @@ pub struct Limits {
 /// `block_on` with logical stall detection. Returns `Some(output)` when the
 /// future finished; `None` when the program was stopped (`ctx.fail` /
 /// `ctx.inconclusive` say why).
+/// What the kernel has registered in this process's epoll instances (from /proc/self/fdinfo).
+pub fn epoll_state() -> String {
+    let mut out = String::new();
+    if let Ok(rd) = std::fs::read_dir("/proc/self/fd") {
+        for e in rd.flatten() {
+            let Ok(t) = std::fs::read_link(e.path()) else { continue };
+            if !t.to_string_lossy().contains("eventpoll") {
+                continue;
+            }
+            let n = e.file_name().to_string_lossy().to_string();
+            if let Ok(info) = std::fs::read_to_string(format!("/proc/self/fdinfo/{n}")) {
+                let regs: Vec<String> = info
+                    .lines()
+                    .filter(|l| l.starts_with("tfd:"))
+                    .map(|l| {
+                        let w: Vec<&str> = l.split_whitespace().collect();
+                        let fd: i32 = w.get(1).and_then(|x| x.parse().ok()).unwrap_or(-1);
+                        let mut p = libc::pollfd { fd, events: libc::POLLIN | libc::POLLOUT, revents: 0 };
+                        unsafe { libc::poll(&mut p, 1, 0) };
+                        format!("{} poll(2)-revents={:#x}", w.iter().take(6).cloned().collect::<Vec<_>>().join(" "), p.revents)
+                    })
+                    .collect();
+                out.push_str(&format!("[epfd {n}: {}] ", regs.join("; ")));
+                // what does the kernel hand out if asked directly (timeout 0)?
+                if let Ok(epfd) = n.parse::<i32>() {
+                    let mut evs: [libc::epoll_event; 8] = unsafe { std::mem::zeroed() };
+                    let k = unsafe { libc::epoll_wait(epfd, evs.as_mut_ptr(), 8, 0) };
+                    let got: Vec<String> = (0..k.max(0) as usize).map(|i| { let e = evs[i]; let (ev, d) = (e.events, e.u64); format!("events={ev:#x} data={d:#x}") }).collect();
+                    out.push_str(&format!("[direct epoll_wait(epfd {n}, 0) -> {k}: {}] ", got.join("; ")));
+                }
+            }
+        }
+    }
+    out
+}
+
 pub fn drive<F: Future>(
     rt: &Runtime,
     ctx: &Ctx,
@@ -341,6 +377,9 @@ pub fn drive<F: Future>(
         let mut cx = Context::from_waker(&waker);
         let mut fut = pin!(fut);
         let mut idle = 0u32;
+        let mut idle_since = Instant::now();
+        // the last driver events, attached to a stall verdict as its history
+        let mut recent: std::collections::VecDeque<String> = std::collections::VecDeque::new();
         let mut last = (ctx.progress.get(), ext_progress());
         loop {
             if let Poll::Ready(v) = fut.as_mut().poll(&mut cx) {
@@ -359,6 +398,7 @@ pub fn drive<F: Future>(
             if now != last {
                 last = now;
                 idle = 0;
+                idle_since = Instant::now();
             } else if !remaining {
                 idle += 1;
             }
@@ -367,7 +407,10 @@ pub fn drive<F: Future>(
                     Stall::KeepWaiting => idle = 0,
                     Stall::Finish => return None,
                     Stall::Violation(f) => {
-                        ctx.fail(f.sig, f.what);
+                        let mut hist: Vec<String> = recent.iter().cloned().collect();
+                        hist.push(format!("IDLE {} driver polls without progress took {} ms", idle, idle_since.elapsed().as_millis()));
+                        hist.push(format!("EPOLL-STATE {}", epoll_state()));
+                        ctx.fail(f.sig, format!("{}; last driver events (kind a b c): {}", f.what, hist.join(" | ")));
                         return None;
                     }
                     Stall::Inconclusive(r) => {
@@ -380,6 +423,14 @@ pub fn drive<F: Future>(
             // Driver-level completions are progress too (e.g. the inner reads of a
             // read_exact that has not returned yet).
             let evs = compio_driver::verif::drain();
+            for e in &evs {
+                if !matches!(e.kind, compio_driver::verif::Kind::PollEnter | compio_driver::verif::Kind::PollExit | compio_driver::verif::Kind::FlushExit) {
+                    if recent.len() >= 160 {
+                        recent.pop_front();
+                    }
+                    recent.push_back(format!("{:?} {:#x} {} {:#x}", e.kind, e.a, e.b, e.c));
+                }
+            }
             if std::env::var_os("C14_EVENTS").is_some() {
                 for e in &evs {
                     if !matches!(e.kind, compio_driver::verif::Kind::PollEnter | compio_driver::verif::Kind::PollExit | compio_driver::verif::Kind::FlushExit) {
